@@ -72,6 +72,41 @@ def report_sys(ck, prop, found, limit=3):
                      found_input=True)
 
 
+def fixed_runs(ck, prop, cases, what):
+    """deterministic one-shot scenarios that are part of every run of a property: cases = [(name, T, roots, fail, prefer)];
+    gated builds, completions released in the order `prefer` as far as it applies.  Returns the violations of `prop`."""
+    ck.rule('fixed scenarios (every run): ' + what)
+    found = []
+    for (name, T, roots, fail, prefer) in cases:
+        r = random.Random(ck.rng.getrandbits(48))
+        obs, V = sysrun.oneshot(r, T, roots, fail=fail, gated=True, tag='%s_fx_%s' % (prop, name), second_run=False, prefer=prefer,
+                                implied_p=0.0)
+        ck.count(('fixed', name), nontrivial=len(obs['trace']) > 0,
+                 sample={'scenario': name, 'targets': T, 'roots': roots, 'fail': fail, 'completion_order': prefer,
+                         'outcome': obs['outcome'], 'exit_code': obs['exit_code'], 'trace': obs['trace'][:12]})
+        ck.tally('sys:fixed-scenario')
+        if prop in V:
+            found.append((obs, V[prop]))
+    return found
+
+
+# a dependency whose script dies from a signal (never an `end 0`): nothing depending on it may start, the run must fail
+KILLED_DEPENDENCY = [
+    ('killed-dep-K%s' % sig, {'dep': {'kind': 'build', 'deps': []}, 'mid': {'kind': 'aggregate', 'deps': ['dep']},
+                              'top': {'kind': 'build', 'deps': ['mid']}, 'side': {'kind': 'build', 'deps': ['dep']}},
+     ['top', 'side'], {'dep': 'K%s' % sig}, ['dep'])
+    for sig in (9, 15, 11)]
+
+# a build fails while an independent build is still running and a service is up: the exit must take them all down
+FAILURE_NEXT_TO_RUNNING = [
+    ('failure-next-to-running', {'bad': {'kind': 'build', 'deps': []}, 'slow': {'kind': 'build', 'deps': []},
+                                 'svc': {'kind': 'service', 'deps': []}, 'usesvc': {'kind': 'build', 'deps': ['svc']}},
+     ['bad', 'slow', 'svc', 'usesvc'], {'bad': 1}, ['bad']),
+    ('failure-behind-aggregate-next-to-running',
+     {'bad': {'kind': 'build', 'deps': []}, 'slow': {'kind': 'build', 'deps': []}, 'svc': {'kind': 'service', 'deps': []},
+      'all': {'kind': 'aggregate', 'deps': ['slow', 'svc', 'bad']}}, ['all'], {'bad': 3}, ['bad'])]
+
+
 def two_invocations(ck, prop, n_quick=10, fail_p=0.7):
     """real-binary runs whose builds declare inputs, with scripts that fail or are killed by a signal, followed by a second
     invocation on the untouched tree: what completed is skipped, what did not complete runs again"""
